@@ -337,6 +337,9 @@ def run_c01(ctx):
     ctx.validate("Wkb_Trace", shards, stage="replay-of-TLC-shape-set")
     shards = ctx.gen("wkbrandom")
     ctx.validate("Wkb_Trace", shards, stage="random-geometries")
+    # sizes around the decoders' allocation step (10 000 points) in both byte orders, and the hex entry points
+    shards = ctx.gen("wkbbig", shards=4)
+    ctx.validate("Wkb_Trace", shards, stage="big-geometries-and-hex")
     # streams: one Encoder / Decoder pair over one pipe (encoder settings and scratch buffer persist between calls)
     ctx.mc("WkbStreamMC", "WkbStreamMC_%s.cfg" % ctx.tier, workers=8,
            note="stream model: the pipe is a FIFO of self-delimiting messages for every history of set-order / set-SRID / encode / decode operations")
@@ -352,7 +355,7 @@ def run_c01(ctx):
 PLANS["C01"] = dict(
     run=run_c01, signature=sig_default,
     technique="TLA+ byte grammar of WKB/EWKB with coordinates as opaque 8-byte strings; TLC checks the reference decoder inverts the encoder on a bounded shape set, emits that set for replay, and validates the real bytes and every decode path byte for byte",
-    level_text="TLC checks on every geometry of a bounded shape set (nine kinds + nil, empty and nil-like members, collections to depth 2, header-looking coordinate bytes) x byte orders x SRIDs {absent, 1, 4326, 2^31-1} that the reference decoder inverts the encoder exactly, that every proper prefix fails to decode, and that the scanner coercion table is total. The same 534 shapes are emitted and replayed through the real wkb and ewkb packages (Marshal, Unmarshal, Decoder, Scanner x 10 destinations x raw/hex/\\\\x-hex/SRID-prefix framings, Value, ValuePrefixSRID), and seeded geometries over every float64 class (NaN payloads, infinities, -0, subnormals, random bits; up to 200 vertices, nesting 4); TLC requires the produced bytes to equal the specified encoding byte for byte and every path to return the canonical value with the written SRID under the documented coercions. Streams: a TLA+ model of one Encoder and one Decoder over one byte pipe (encoder byte order and default SRID persist, the pipe is a FIFO of self-delimiting messages) is model-checked over every history of <=3 (4) operations; every such history is replayed through the real wkb and ewkb Encoder / Decoder with whole, 1-byte and 3-byte reads, plus seeded histories with random geometries, chunked readers and a writer that fails part-way; TLC steps the model along each recorded history and requires every Encode to have written exactly the specified bytes (or a reported prefix) and every Decode to return the oldest undecoded value, its SRID, and to consume exactly one message. Scanners and destinations kept across events (a rows.Scan loop) must answer like fresh ones.",
+    level_text="TLC checks on every geometry of a bounded shape set (nine kinds + nil, empty and nil-like members, collections to depth 2, header-looking coordinate bytes) x byte orders x SRIDs {absent, 1, 4326, 2^31-1} that the reference decoder inverts the encoder exactly, that every proper prefix fails to decode, and that the scanner coercion table is total. The same 534 shapes are emitted and replayed through the real wkb and ewkb packages (Marshal, Unmarshal, Decoder, Scanner x 10 destinations x raw/hex/\\\\x-hex/SRID-prefix framings, Value, ValuePrefixSRID), and seeded geometries over every float64 class (NaN payloads, infinities, -0, subnormals, random bits; up to 200 vertices, nesting 4); TLC requires the produced bytes to equal the specified encoding byte for byte and every path to return the canonical value with the written SRID under the documented coercions. Streams: a TLA+ model of one Encoder and one Decoder over one byte pipe (encoder byte order and default SRID persist, the pipe is a FIFO of self-delimiting messages) is model-checked over every history of <=3 (4) operations; every such history is replayed through the real wkb and ewkb Encoder / Decoder with whole, 1-byte and 3-byte reads, plus seeded histories with random geometries, chunked readers and a writer that fails part-way; TLC steps the model along each recorded history and requires every Encode to have written exactly the specified bytes (or a reported prefix) and every Decode to return the oldest undecoded value, its SRID, and to consume exactly one message. Scanners and destinations kept across events (a rows.Scan loop) must answer like fresh ones. Sizes: line strings, multi-points, polygons and multi-line strings with 9 999 .. 20 001 (65 537 thorough) vertices per part, both byte orders, through every decode path (value compared in the harness, byte length against the format by TLC); the hex entry points must give the hex of Marshal for the same SRID, zero included, under default SRIDs 4326, 0 and 3857.",
     level_note="The wkb (non-E) scanner's documented, deprecated SRID-prefix retry heuristic is exercised only for prefixes whose low byte is not 0 or 1 (otherwise the prefix is indistinguishable from a header); ewkb.ScannerPrefixSRID is exercised for all SRIDs. Collections with typed-nil members are outside the quantifier. Scanning into a Bound is judged on coordinate ranks (not for NaN inputs). Trusted: TLC, Json module, bit interning of coordinates, encoding/hex for the framings.",
     rule="one event = one geometry x package x byte order x SRID with the produced bytes and the result of every decode path; non-trivial = non-nil geometry; distinct = distinct event text",
     assumptions=["a float64 is identified with its bit pattern (8 bytes) by the harness interning"],
